@@ -34,7 +34,8 @@ def flatChunk (pat : List Nat) (v : FlatMap) : List FlatMap :=
   | _ => [v]
 
 /-- stream-mode values: chunk lists; fan-in merge = the sources' chunks one source after
-    the other (one of the interleavings `MergeStreamReaders` may produce) -/
-def streamOps : ValOps (List FlatMap) := { merge := fun ls => some ls.flatten, zero := [] }
+    the other (one of the interleavings `MergeStreamReaders` may produce); the zero stream is
+    one chunk carrying the zero value (the empty map), as `emptyStreamFromGeneric` builds it -/
+def streamOps : ValOps (List FlatMap) := { merge := fun ls => some ls.flatten, zero := [[]] }
 
 end EinoV.C04
